@@ -1,0 +1,15 @@
+//go:build verif
+// +build verif
+
+package account
+
+import "github.com/LemoFoundationLtd/lemochain-core/chain/types"
+
+// Read-only verification hooks (property C07). Nothing here is compiled into
+// the node; the file only exists under the `verif` build tag.
+
+// VerifMerge exposes the per-account merge step of MergeChangeLogs (before removeUnchanged).
+func VerifMerge(logs types.ChangeLogSlice) types.ChangeLogSlice { return merge(logs) }
+
+// VerifNeedMerge exposes the table of log types that MergeChangeLogs merges.
+func VerifNeedMerge(t types.ChangeLogType) bool { return needMerge(t) }
